@@ -227,3 +227,25 @@ def write_json(path, obj):
     with open(tmp, "w") as o:
         json.dump(obj, o, indent=1, ensure_ascii=False)
     os.replace(tmp, path)
+
+
+def source_hashes():
+    out = {}
+    for base in ("chiritori/src", "chiritori-cli/src"):
+        for d, _, fs in os.walk(os.path.join(REPO, base)):
+            for f in sorted(fs):
+                if f.endswith(".rs"):
+                    p = os.path.join(d, f)
+                    out[os.path.relpath(p, REPO)] = hashlib.sha256(open(p, "rb").read()).hexdigest()
+    return out
+
+
+def source_drift():
+    """Rust source files whose text differs from coq/SOURCE_MAP.json (written by bin/source-map when the
+    model was last reconciled with the code)"""
+    p = os.path.join(COQ, "SOURCE_MAP.json")
+    if not os.path.exists(p):
+        return []
+    want = json.load(open(p))["files"]
+    have = source_hashes()
+    return sorted(f for f in set(want) | set(have) if want.get(f) != have.get(f))
